@@ -6,8 +6,8 @@ from .frontend import children, strip, strip_parens
 from .expr import int_value, access_path, var_init, canon
 
 
-def run_function(prog, f, args, stubs, max_steps=400):
-    env = {}
+def run_function(prog, f, args, stubs, max_steps=400, extra_env=None):
+    env = dict(extra_env or {})
     for p, a in zip(f.params, args):
         env[p.get('name')] = a
     cfg = f.cfg
@@ -22,8 +22,25 @@ def run_function(prog, f, args, stubs, max_steps=400):
             return v
         k = s.get('kind')
         if k == 'DeclRefExpr':
+            r = s.get('_ref') or ('',)
+            if r[0] == 'enum':
+                c = f.unit.enums.get(r[1])
+                if c is not None:
+                    from .frontend import walk as _walk
+                    for y in _walk(c):
+                        if y.get('kind') == 'ConstantExpr' and y.get('value') is not None:
+                            try:
+                                return int(y['value'])
+                            except (TypeError, ValueError):
+                                pass
+                        vv = int_value(y)
+                        if isinstance(vv, int) and y is not c:
+                            return vv
+                return None
             p = access_path(s)
             return env.get(p)
+        if k == 'MemberExpr':
+            return env.get(access_path(s))      # field reads are looked up by their path (given by the caller), else unknown
         if k == 'CallExpr':
             nm = prog.callee_name(s)
             if nm in stubs:
